@@ -10,7 +10,7 @@
 From Coq Require Import String ZArith List Bool Arith.
 From SK Require Import Model.Base Model.Skel Model.Store Model.Par
      Model.Stm Model.StoreSk Proofs.Par Proofs.ParLayout Gen.Skeleton
-     Gen.SkelTree Gen.Params.
+     Gen.SkelTree Gen.Params Gen.XStore.
 Import ListNotations.
 Open Scope Z_scope.
 
@@ -43,6 +43,18 @@ Theorem C06_local_shape : no_reads_list tk_rsp_local = expected_rsp_local.
 Proof. vm_compute. reflexivity. Qed.
 
 Theorem C06_add_goes_through_local : tk_rsp_add = expected_rsp_add.
+Proof. vm_compute. reflexivity. Qed.
+
+(* T1: sync copies every local value that `is not None` - also the falsy
+   ones (0, '', False ...) - which is what "AWrData for every item of the
+   local data" in the model stands for *)
+Theorem C06_sync_copies_all_but_none : x_sync_data_guard_is_not_none = true.
+Proof. vm_compute. reflexivity. Qed.
+
+(* ... and never writes (clears) the worker-local tables: the local store
+   keeps describing which indices of its blocks are in use *)
+Theorem C06_sync_leaves_local_tables_alone :
+  occ_list is_wr_any tk_sync_local = 0%nat.
 Proof. vm_compute. reflexivity. Qed.
 
 (* parametric theorem: ANY pair of skeletons passing the checks *)
